@@ -47,6 +47,37 @@ pub fn encode_into(msg: &StunMessage, cap: usize, fill: u8) -> Result<Result<(us
     })
 }
 
+thread_local! {
+    static REUSED_ENCODER: stun_rs::MessageEncoder = MessageEncoderBuilder::default().build();
+}
+
+pub const ENCODER_VARIANTS: [&str; 4] = ["reused-encoder", "default-context", "custom-padding-a5", "random-padding"];
+
+/// Encode under one of the other encoder configurations: 0 = one encoder object reused for every message of the
+/// thread, 1 = encoder with a default context, 2 = custom padding byte 0xA5, 3 = random padding.
+pub fn encode_variant(msg: &StunMessage, cap: usize, fill: u8, variant: usize) -> Result<Result<(usize, Vec<u8>), String>, String> {
+    use stun_rs::{EncoderContextBuilder, StunPadding};
+    guard(|| {
+        let mut buf = vec![fill; cap];
+        let r = match variant {
+            0 => REUSED_ENCODER.with(|e| e.encode(&mut buf, msg)),
+            1 => MessageEncoderBuilder::default().with_context(EncoderContextBuilder::default().build()).build().encode(&mut buf, msg),
+            2 => MessageEncoderBuilder::default()
+                .with_context(EncoderContextBuilder::default().with_custom_padding(StunPadding::Custom(0xA5)).build())
+                .build()
+                .encode(&mut buf, msg),
+            _ => MessageEncoderBuilder::default()
+                .with_context(EncoderContextBuilder::default().with_custom_padding(StunPadding::Random).build())
+                .build()
+                .encode(&mut buf, msg),
+        };
+        match r {
+            Ok(n) => Ok((n, buf)),
+            Err(e) => Err(format!("{}", e)),
+        }
+    })
+}
+
 #[derive(Clone, Copy, Debug, PartialEq, Eq, Hash)]
 pub struct Opts {
     pub ctx: bool,
